@@ -67,11 +67,17 @@ def gen_spec(rng, depth=0, *, bad=0.0, reserved=0.0, tasks=True, nan=True, mixed
         return [kind, [gen_spec(rng, depth + 1, bad=bad, reserved=reserved, tasks=tasks, nan=nan, mixed=mixed) for _ in range(rng.randint(0, 3))]]
     if r < 0.78:
         if rng.random() < reserved:
-            if rng.random() < 0.5:
-                return ['dict', False, [[['str', '_is_task'], ['bool', True]], [['str', '__class__'], ['str', 'lv_universe.V2']],
-                                        [['str', 'x'], gen_spec(rng, depth + 1, tasks=tasks, nan=nan, mixed=mixed)]]]
-            return ['dict', True, [[['str', '_is_enum'], ['bool', True]], [['str', '__class__'], ['str', 'lv_universe.Color']],
-                                   [['str', 'name'], ['str', 'RED']]]]
+            sub = lambda: gen_spec(rng, depth + 1, tasks=tasks, nan=nan, mixed=mixed)     # noqa
+            return rng.choice([
+                # dicts that spell a serialised task / enum member / wrapped dict, completely or not, with truthy or falsy markers
+                lambda: ['dict', False, [[['str', '_is_task'], ['bool', True]], [['str', '__class__'], ['str', 'lv_universe.V2']], [['str', 'x'], sub()]]],
+                lambda: ['dict', True, [[['str', '_is_enum'], ['bool', True]], [['str', '__class__'], ['str', 'lv_universe.Color']], [['str', 'name'], ['str', 'RED']]]],
+                lambda: ['dict', False, [[['str', '_is_dict'], ['bool', True]], [['str', 'items'], ['dict', False, [[['str', 'k'], sub()]]]]]],
+                lambda: ['dict', False, [[['str', '_is_dict'], ['int', '1']], [['str', 'items'], ['int', '3']]]],
+                lambda: ['dict', False, [[['str', '_is_task'], ['int', '1']], [['str', 'x'], sub()]]],
+                lambda: ['dict', True, [[['str', '_is_task'], ['bool', False]], [['str', '_is_enum'], ['str', '']], [['str', 'k'], sub()]]],
+                lambda: ['dict', False, [[['str', 'x'], sub()], [['str', '_is_enum'], ['tuple', [['int', '0']]]]]],
+            ])()
         keys = rng.sample(KEY_POOL, rng.randint(0, 3))
         kvs = []
         for k in keys:
